@@ -29,6 +29,18 @@ def sh(cmd, cwd=None, timeout=1800):
     return p.returncode, out.decode("utf-8", "replace")
 
 
+seeded_dir = "/verif/seeded/%s-%s%s" % (prop, (tag + "-") if tag else "", n)
+if not os.path.isdir(mdir) and os.path.exists(os.path.join(seeded_dir, "meta.json")):
+    # the scratch worktree is gone: re-run the checks from what was kept under seeded/ (needs SKIP_CONFIRM)
+    os.environ["SKIP_CONFIRM"] = "1"
+    mdir = "/tmp/eval_mutant_%s_%s_%s" % (prop, tag, n)
+    os.makedirs(mdir, exist_ok=True)
+    shutil.copy(os.path.join(seeded_dir, "patch.diff"), os.path.join(mdir, "patch%s.diff" % n))
+    _m = json.load(open(os.path.join(seeded_dir, "meta.json")))
+    open(os.path.join(mdir, "README%s.txt" % n), "w").write(_m.get("readme") or "")
+    for f in os.listdir(seeded_dir):
+        if f.endswith(".go"):
+            shutil.copy(os.path.join(seeded_dir, f), os.path.join(mdir, f))
 patch = os.path.join(mdir, "patch%s.diff" % n)
 rebased = os.path.join(mdir, "patch%s.rebased.diff" % n)  # hand-rebased on a later hook commit
 readme = open(os.path.join(mdir, "README%s.txt" % n)).read() if os.path.exists(os.path.join(mdir, "README%s.txt" % n)) else ""
